@@ -468,7 +468,7 @@ func c08PathFilter(c *Ctx, m map[string]interface{}, path string, specs []string
 
 func c08Run(c *Ctx) {
 	mustBeDefault(c)
-	c.S.Rule = "part 1 (search): every Map template with <= N nodes over keys {a,b,k} (lists, list-in-list, empty containers, unique leaves) x keys {a,b,k,z,*}: ValuesForKey/ValueForKey vs reference, PathsForKey as a set, PathForKeyShortest minimal, and values-through-paths = ValuesForKey. part 2 (filters): every Map template with <= M nodes over keys {a,k} with typed leaves {\"s\",1,true} x key/path x every set of 1..2 sub-key conditions over {a (maybe present), z (absent)} x {matching, non-matching, *} x {untyped, :string, :bool, :num} x {plain, negated}, under field separators ':' and '|': filtered result = maps of the unfiltered result satisfying the reference predicate. Each case runs under ascending and descending map order; cases that range over >= 2 keys are also explored under every single order deviation (E-choice bound 1). non-trivial = key present (part 1) / filter keeps a proper non-empty subset (part 2)."
+	c.S.Rule = "part 1 (search): every Map template with <= N nodes over keys {a,bbbb,k} plus the sibling family {a:[M1,M2]} (Mi every map template with <= 4 nodes over {a,k}) (lists, list-in-list, empty containers, unique leaves) x keys {a,b,k,z,*}: ValuesForKey/ValueForKey vs reference, PathsForKey as a set, PathForKeyShortest minimal, and values-through-paths = ValuesForKey. part 2 (filters): every Map template with <= M nodes over keys {a,k} with typed leaves {\"s\",1,true} x key/path x every set of 1..2 sub-key conditions over {a (maybe present), z (absent)} x {matching, non-matching, *} x {untyped, :string, :bool, :num} x {plain, negated}, under field separators ':' and '|': filtered result = maps of the unfiltered result satisfying the reference predicate. Each case runs under ascending and descending map order; cases that range over >= 2 keys are also explored under every single order deviation (E-choice bound 1). non-trivial = key present (part 1) / filter keeps a proper non-empty subset (part 2)."
 	c.S.Assumptions = []string{"negated condition with a concrete value on an absent key: satisfied and not-satisfied readings both accepted", "reference search/filter semantics in harness/c08.go written from the documentation"}
 	n1, n2, ech := 6, 5, 5
 	if c.Thorough {
@@ -501,10 +501,11 @@ func c08Run(c *Ctx) {
 		rt.OrderPolicy = rt.PolicySorted
 	}
 	// part 1
-	g := newGen(GenP{Keys: []string{"a", "b", "k"}, MaxList: 3, MaxKeys: 3, EmptyList: true, EmptyMap: true, ListInList: true})
-	g.rootMaps(n1, func(t *T) {
+	// one key is long, so that a shallower path can have more characters than a deeper one
+	g := newGen(GenP{Keys: []string{"a", "bbbb", "k"}, MaxList: 3, MaxKeys: 3, EmptyList: true, EmptyMap: true, ListInList: true})
+	part1 := func(t *T) {
 		nodes := countNodes(t)
-		for _, key := range []string{"a", "b", "k", "z", "*"} {
+		for _, key := range []string{"a", "bbbb", "k", "z", "*"} {
 			if !c.Mine() {
 				continue
 			}
@@ -521,7 +522,27 @@ func c08Run(c *Ctx) {
 				first = false
 			})
 		}
+	}
+	g.rootMaps(n1, part1)
+	// sibling family: a list of 2..3 small maps under one key (the shape repeated XML elements decode to),
+	// beyond the node bound of the plain enumeration
+	gs := newGen(GenP{Keys: []string{"a", "k"}, MaxList: 2, MaxKeys: 2, EmptyList: false, EmptyMap: true, ListInList: false})
+	var sibs []*T
+	gs.values(4, func(t *T) {
+		if t.Kind == 'M' {
+			sibs = append(sibs, t)
+		}
 	})
+	for _, m1 := range sibs {
+		for _, m2 := range sibs {
+			part1(&T{Kind: 'M', Keys: []string{"a"}, Kids: []*T{{Kind: 'L', Kids: []*T{m1, m2}}}})
+			if c.Thorough {
+				for _, m3 := range sibs[:6] {
+					part1(&T{Kind: 'M', Keys: []string{"k"}, Kids: []*T{{Kind: 'L', Kids: []*T{m1, m2, m3}}}})
+				}
+			}
+		}
+	}
 	// part 2
 	var specsFor = func(sep string) [][]string {
 		var single []string
